@@ -3,7 +3,7 @@
  * Linked with the C file parsec-ptgpp produced from a JDF of tools/jdfgen.py
  * (which provides ptg_case_new/ptg_case_free/ptg_case_ndata) and libparsec.
  *
- *   ptg_driver [--again SEED MAX] [--reps R] --cfg CORES [parsec options, e.g. --mca mca_sched lfq] [--cfg …]…
+ *   ptg_driver [--again SEED MAX] [--reps R] [--slow US CLASS] --cfg CORES [parsec options, e.g. --mca mca_sched lfq] [--cfg …]…
  *
  * It initialises MPI and PaRSEC, builds a tiny in-memory data collection
  * (ptg_case_ndata elements of PTG_RT_ELT_BYTES bytes, all on rank 0), runs the
@@ -24,6 +24,7 @@
 #endif
 #include <stdio.h>
 #include <pthread.h>
+#include <unistd.h>
 #include <stdlib.h>
 #include <string.h>
 #include <stdarg.h>
@@ -59,6 +60,11 @@ typedef struct { const parsec_task_class_t *tc; int32_t locals[MAX_LOCAL_COUNT];
 static ptg_again_t ptg_again_tab[PTG_MAXLOG];
 static int ptg_again_n = 0;
 static pthread_mutex_t ptg_again_lock = PTHREAD_MUTEX_INITIALIZER;
+
+/* --slow US CLASS: bodies of CLASS sleep US microseconds (keeps their inputs alive: a task that is wrongly
+ * run a second time then finds its data and shows up in the log instead of crashing in prepare_input) */
+static int  ptg_slow_us = 0;
+static char ptg_slow_class[64] = "";
 
 static uint64_t mix64(uint64_t z) {
     z += 0x9E3779B97F4A7C15ULL;
@@ -103,6 +109,7 @@ int ptg_rt_begin(parsec_task_t *t) {
     e->begin = parsec_atomic_fetch_inc_int64(&ptg_clock);
     e->again = ptg_again_decide(t->task_class, e->locals);
     ptg_cur = e;
+    if (ptg_slow_us > 0 && 0 == strcmp(ptg_slow_class, t->task_class->name)) usleep((useconds_t)ptg_slow_us);
     if (e->again) { e->end = parsec_atomic_fetch_inc_int64(&ptg_clock); ptg_cur = NULL; return 1; }
     return 0;
 }
@@ -286,7 +293,7 @@ static int run_config(int cores, int pargc, char **pargv, int reps) {
     return 0;
 }
 
-/*   ptg_driver [--again SEED MAX] [--reps R] --cfg CORES [parsec options…] [--cfg CORES [parsec options…]]…
+/*   ptg_driver [--again SEED MAX] [--reps R] [--slow US CLASS] --cfg CORES [parsec options…] [--cfg CORES [parsec options…]]…
  * every --cfg starts a configuration: a separate parsec_init/parsec_fini inside one MPI_Init
  * (MPI_Init_thread dominates the cost of a run); each prints "CONFIG <i>" … "END rc=…". */
 int main(int argc, char **argv) {
@@ -295,6 +302,7 @@ int main(int argc, char **argv) {
     while (i < argc) {
         if (!strcmp(argv[i], "--again") && i + 2 < argc) { ptg_again_seed = strtoull(argv[i + 1], NULL, 10); ptg_again_max = atoi(argv[i + 2]); i += 3; }
         else if (!strcmp(argv[i], "--reps") && i + 1 < argc) { reps = atoi(argv[i + 1]); i += 2; }
+        else if (!strcmp(argv[i], "--slow") && i + 2 < argc) { ptg_slow_us = atoi(argv[i + 1]); snprintf(ptg_slow_class, sizeof(ptg_slow_class), "%s", argv[i + 2]); i += 3; }
         else if (!strcmp(argv[i], "--cfg") && i + 1 < argc) {
             int cores = atoi(argv[i + 1]), j = i + 2, n = 0;
             char *pv[64];
